@@ -8,9 +8,12 @@ The specification contributes the input space and the idempotence machine; this 
 conformance half (exploration level).
 """
 import json
+import os
 import random
+import subprocess
+import sys
 
-from .common import MachineryError, dump_json
+from .common import MachineryError, dump_json, REPO, VERIF, PY
 from .corpus import pmap, accepted
 from .tlaparse import find_prints
 
@@ -63,6 +66,55 @@ def _rt(args):
     if digest(t2) != d1:
         diff = first_diff(proj(t1), proj(t2))
     return {'sql': sql, 'dialect': d, 'events': ev, 'kind': type(t1).__name__, 'text1': s1, 'diff': diff}
+
+
+RAW_PRE = [('CREATE MODEL m FROM db (', ') PREDICT y'), ('RETRAIN m FROM db (', ')'), ('FINETUNE m FROM db (', ')'),
+           ('CREATE VIEW v AS (', ')'), ('CREATE VIEW v FROM db (', ')'), ('CREATE JOB j (', ')'),
+           ('CREATE JOB j ( select 1 ) IF (', ')'), ('CREATE TRIGGER t ON db.tbl (', ')'), ('SELECT * FROM db (', ') LIMIT 3'),
+           ('EVALUATE acc FROM (', ')')]
+RAW_INNER = ['select a, b from c where x = 1', 'select a,\n   b from c\n where x = 1', 'select a, b\n\n   from c\n\n\n  where x = 1',
+             '\n  select a\n  from c\n', 'select a from c;\n\n   select b from d']
+RAW = [a + i + b for a, b in RAW_PRE for i in RAW_INNER]
+GAPS = [' ', '\n', '\n\n    ', '  ', '\t', '\n \n']
+
+
+def layouts(sql, dialect):
+    """The same token sequence written with other white space between the tokens (deterministic variants)."""
+    from .corpus import lex_spans
+    sp = lex_spans(dialect, sql)
+    if not sp or len(sp) < 2 or len(sp) > 80:
+        return []
+    lx = [sql[a:b] for _, a, b in sp]
+    out = []
+    for k in (0, 1):
+        t = lx[0]
+        for i, x in enumerate(lx[1:]):
+            t += (GAPS[2] if k == 0 else GAPS[(i * 7 + 3) % len(GAPS)]) + x
+        out.append(t)
+    return out
+
+
+HISTORY_STMTS = ["select `job`.`project` from `trigger`", "select `latest`, `skill`, `every` from `chatbot`",
+                 "select `evaluate`, `finetune` from `predict` where `horizon` = 1", "select `primary_key`, `ml_engine` from t",
+                 "select a as `intersect`, b as `except` from `using`", "select `order`, `group`, `by`, `if` from `exists`",
+                 "select `model`, `agent`, `view` from `database`", "select `x y`.`z` from `a-b`"]
+ORDERS = (('sqlite', 'mysql', 'mindsdb'), ('mysql', 'sqlite', 'mindsdb'), ('mysql', 'mindsdb', 'sqlite'))
+
+
+def worker_main():
+    """Fresh interpreter: run the pipelines in the order given (the call history is part of the input)."""
+    items = json.loads(sys.stdin.read())
+    sys.stdout.write(json.dumps([_rt((s, d)) for s, d in items]))
+
+
+def fresh_history(items):
+    e = dict(os.environ)
+    e.update({'PYTHONPATH': '%s:%s' % (REPO, VERIF), 'PYTHONHASHSEED': '0', 'MINDSDB_SQL_VERIF': '1', 'PYTHONDONTWRITEBYTECODE': '1'})
+    p = subprocess.run([PY, '-c', 'from harness.c01 import worker_main; worker_main()'], input=json.dumps(items), env=e,
+                       cwd=str(VERIF), stdout=subprocess.PIPE, stderr=subprocess.PIPE, text=True, timeout=1800)
+    if p.returncode != 0:
+        raise MachineryError('history worker failed: %s' % p.stderr[-800:])
+    return json.loads(p.stdout)
 
 
 def _tn(x):
@@ -153,11 +205,16 @@ def run(ctx):
     from . import grammargen
     work = []
     for d in DIALECTS:
-        for s in EXTRA:
+        for s in EXTRA + HISTORY_STMTS + RAW:
             work.append((s, d, 'targeted'))
+            for v in layouts(s, d):
+                work.append((v, d, 'layout'))
         acc = accepted(d)
         for s in acc:
             work.append((s, d, 'tests'))
+        for s in (acc if thorough else acc[::5]):
+            for v in layouts(s, d):
+                work.append((v, d, 'layout'))
         # generated sentences: the token-type sentences come from a FIXED pool (constant TLC seed) so that the listed
         # failures can be pinned input by input; VERIF_SEED varies the identifier spellings they are concretized with
         for s, ty, _ in grammargen.cover_texts(ctx, d, variants=2 if thorough else 1):
@@ -181,6 +238,39 @@ def run(ctx):
         r['key'] = key
         traces.append({'events': r['events']})
         meta.append((r, k))
+    # ---- call histories: the same pipelines in fresh interpreters that use the dialects in another order (what a
+    # statement prints to must not depend on which dialect was used first in the process)
+    base = {(r['dialect'], r['key']): r for r, _ in meta}
+    hist_items = [(w[0], w[1], w[3]) for w in w2 if w[2] in ('targeted', 'tests')]
+    if not thorough:
+        fixed = [w for w in hist_items if w[0] in EXTRA + HISTORY_STMTS]
+        rest = [w for w in hist_items if w[0] not in EXTRA + HISTORY_STMTS]
+        rng.shuffle(rest)
+        hist_items = fixed + rest[:300]
+    from concurrent.futures import ThreadPoolExecutor
+    jobs = []
+    for order in ORDERS:
+        items = [w for d in order for w in hist_items if w[1] == d]
+        jobs.append((order, items))
+    with ThreadPoolExecutor(len(jobs)) as ex:
+        outs = list(ex.map(lambda j: fresh_history([(w[0], w[1]) for w in j[1]]), jobs))
+    nh = 0
+    for (order, items), out in zip(jobs, outs):
+        for w, r in zip(items, out):
+            b = base.get((w[1], w[2]))
+            if r is None or b is None:
+                if (r is None) != (b is None):
+                    ctx.violation('AcceptanceDependsOnHistory', 'a text is accepted in one call history and rejected in another',
+                                  {'sql': w[0], 'dialect': w[1], 'order': list(order)})
+                continue
+            r['key'] = w[2]
+            r['order'] = list(order)
+            # the baseline print is part of the record: RoundTrip flags a print that differs between histories
+            r['events'].append({'e': 'hist', 'd': b.get('text1') or '', 'ok': 1, 't': ''})
+            traces.append({'events': r['events']})
+            meta.append((r, 'history:' + '>'.join(order)))
+            nh += 1
+    ctx.cov['history_pipelines'] = nh
     path = ctx.work / 'rt.json'
     dump_json(path, traces)
     tr = ctx.tlc('RoundTrip', env={'VERIF_TRACES': path}, name='roundtrip', timeout=3000)
@@ -203,6 +293,11 @@ def run(ctx):
                 culprit = r['kind']
             elif flag == 'SecondPrintDiffers' and 'ReparsedTreeDiffers' in ver[i + 1]:
                 continue    # consequence of the tree difference already reported
+            elif flag == 'PrintDependsOnHistory':
+                ctx.violation('PrintDependsOnHistory:%s' % r['kind'], 'the same text prints differently depending on which dialects '
+                              'were used earlier in the process', {'sql': r['sql'], 'dialect': r['dialect'], 'order': r.get('order'),
+                                                                  'printed': r.get('text1')})
+                continue
             else:
                 fine = ''
                 culprit = r['kind']
@@ -210,6 +305,7 @@ def run(ctx):
             fc['%s:%s %s' % (flag, culprit, fine)] = fc.get('%s:%s %s' % (flag, culprit, fine), 0) + 1
             ctx.violation('%s:%s' % (flag, culprit), 'round trip: %s %s' % (flag, fine),
                           {'sql': r['sql'], 'dialect': r['dialect'], 'printed': r.get('text1'), 'source': k, 'where': fine,
+                           'order': r.get('order'),
                            'events': [(e['e'], e['ok']) for e in r['events']]},
                           pin=('%s|%s' % (r['dialect'], r['key']), [flag, fine]))
     ctx.cov['evaluations'] = len(traces)
